@@ -1040,6 +1040,7 @@ def run(ctx):
     for i in range(n):
         trees.append(('random', fix(g.expr(ctx.rng.choice([1, 2, 2, 3, 3, 4])))))
     check_trees(ctx, trees, 'random')
+    pretrans_tie(ctx, [t for _, t in wit + folded] + [t for _, t in exhaustive_pairs()] + [t for _, t in trees])
     # constructs the printer handles loudly or that are never recompiled: counted, not violations
     for s in OUTSIDE_NOTES:
         t = ast.parse(s, mode='eval').body
@@ -1156,7 +1157,11 @@ def xscope_case(ctx, rec, rng, kind, entry, expr, creator, route, clash_locals, 
     ctx.count('xscope-entry:' + entry)
     from pony.orm.core import ExprEvalError
     if isinstance(err, ExprEvalError):
-        ctx.count('xscope:loud:ExprEvalError'); return None
+        ctx.count('xscope:loud:ExprEvalError:' + kind)
+        smp = ctx.extra.setdefault('xscope_loud_samples', [])
+        if len(smp) < 8: smp.append({'kind': kind, 'entry': entry, 'expr': expr, 'creator': creator, 'route': route, 'msg': str(err)[:200],
+                                     'clash_locals': sorted(clash_locals), 'clash_globals': sorted(clash_globals)})
+        return None
     bound = []
     for vars in rec:
         for k, v in vars.items():
@@ -1205,3 +1210,76 @@ def xscope(ctx):
         seen.add(key)
         ctx.violation(f['what'], {'program': f['program'], 'entry': f['entry'], 'expr': f['expr'], 'clash_locals': f['clash_locals'],
                                   'clash_globals': f['clash_globals']}, observed=f['pony'], expected=f['python'], key=key)
+
+
+# ---------------------------------------------------------------------------------------------------------------
+# tie (1b): the Lean model of PreTranslator (Model/PreTrans.lean) against the real class — which nodes become parameters
+
+class _Dummy:
+    """value of every name the classification evaluates (PreTranslator.postCall evals the callee to look it up)"""
+    def __getattr__(self, name): return self
+    def __hash__(self): return 7
+
+
+def pt_children(n):
+    from pony.orm.asttranslation import get_child_nodes
+    if isinstance(n, ast.Lambda): return [n.body]
+    return [c for c in get_child_nodes(n) if not isinstance(c, ast.cmpop)]
+
+
+def pt_kind(n):
+    if isinstance(n, ast.Name): return 'nameLoad'
+    if isinstance(n, ast.Constant): return 'const'
+    if isinstance(n, ast.Lambda): return 'lambda'
+    if isinstance(n, ast.Starred): return 'starred'
+    if isinstance(n, ast.List): return 'listD'
+    if isinstance(n, ast.Dict): return 'dictD'
+    if isinstance(n, ast.Slice): return 'slice'
+    if isinstance(n, ast.keyword): return 'keyword'
+    if isinstance(n, ast.Tuple): return 'tuple'
+    return 'other'
+
+
+def pt_encode(tree):
+    labels = {}
+    def go(n):
+        lab = len(labels); labels[id(n)] = lab
+        if isinstance(n, ast.Name): names = [n.id]
+        elif isinstance(n, ast.Lambda):
+            a = n.args
+            names = [x.arg for x in a.args] + ([a.vararg.arg] if a.vararg else []) + ([a.kwarg.arg] if a.kwarg else [])
+        else: names = []
+        return [pt_kind(n), lab, names, [go(c) for c in pt_children(n)]]
+    return go(tree), labels
+
+
+def pretrans_tie(ctx, trees):
+    """trees: list of ast expressions.  Real PreTranslator(tree).externals == model externals, as sets of node positions"""
+    if not ctx.driver.ok: return
+    from pony.orm.asttranslation import PreTranslator
+    from pony.orm import core
+    rng = random.Random(ctx.seed * 31337 + 5)
+    reqs, reals, info = [], [], []
+    pool = NAMES + ['u', 'v', 'w', 'z', 'rest', 'kws']
+    glob = {n: _Dummy() for n in pool}
+    for tree in trees:
+        t = copy.deepcopy(tree)
+        if any(isinstance(x, (ast.GeneratorExp, ast.ListComp, ast.SetComp, ast.DictComp, ast.NamedExpr)) for x in ast.walk(t)): continue
+        bound = [n for n in NAMES if rng.random() < .3]
+        enc, labels = pt_encode(t)
+        try:
+            pt = PreTranslator(t, glob, {}, core.special_functions, core.const_functions, set(bound))
+            real = sorted(labels[id(n)] for n in pt.externals)
+        except Exception as e:
+            ctx.count('pretrans:real-raises:' + type(e).__name__); continue
+        reqs.append({'op': 'classify', 't': enc, 'ctx': bound}); reals.append(real); info.append((ast.dump(tree), bound))
+    outs = ctx.driver('C04', reqs)
+    for (d, bound), real, o in zip(info, reals, outs):
+        ctx.case(['pretrans', d, bound], kind='pretrans')
+        got = sorted(set(o.get('externals', []))) if 'driver_error' not in o else o
+        ctx.count('pretrans:externals-%d' % min(len(real), 5))
+        if got != real:
+            ctx.divergence('model of PreTranslator and the real class choose different external nodes', {'tree': d, 'bound': bound},
+                           model=got, impl=real)
+        else:
+            ctx.count('pretrans:equal')
